@@ -125,9 +125,12 @@ DepsOf(t) == DedupSeq(Flat([i \in DOMAIN Kids(t) |-> TasksIn(Kids(t)[i])]), <<>>
 DefaultFields(ty) == IF ty = "m1.M5"        \* a type with five parameters, four of which keep their declared defaults
                      THEN <<N("int", "1", <<>>), N("str", "a", <<>>), N("none", "None", <<>>), N("float", "1.0", <<>>)>>
                      ELSE <<>>
+InheritedFields(ty) == IF ty = "m1.TE"      \* a task type extending the task type m1.T: T's parameter (fixed) precedes its own
+                       THEN <<N("int", "1", <<>>)>> ELSE <<>>
 Build(ty, raws) ==
-  LET fs == [i \in DOMAIN raws |-> Norm("f" \o ToString(i), raws[i])] IN
-  IF \E i \in DOMAIN fs : IsRej(fs[i]) THEN FirstRej(fs) ELSE N("task", ty, fs \o DefaultFields(ty))
+  LET k == Len(InheritedFields(ty))
+      fs == [i \in DOMAIN raws |-> Norm("f" \o ToString(i + k), raws[i])] IN
+  IF \E i \in DOMAIN fs : IsRej(fs[i]) THEN FirstRej(fs) ELSE N("task", ty, InheritedFields(ty) \o fs \o DefaultFields(ty))
 
 (* property level: two tasks are "built the same way" iff they have the same type identity and the same normalised fields *)
 SameBuild(t1, t2) == t1 = t2
@@ -143,7 +146,7 @@ SmallAtoms == { N("str", "a", <<>>), N("int", "1", <<>>), N("bool", "True", <<>>
 Unsupported == { N("set", "", <<>>), N("bytes", "b", <<>>), N("obj", "", <<>>) }
 KeyNodes == { N("str", "k", <<>>), N("str", "_is_task", <<>>), N("str", "__class__", <<>>), N("str", "_is_enum", <<>>),
               N("str", "name", <<>>), N("int", "1", <<>>), N("str", "_is_dict", <<>>), N("str", "items", <<>>) }
-Types == {"m1.T", "m2.T", "m1.TX", "m1.TSub", "m1.T_", "m1.T__V", "m1.M5"}       \* same-named type in another module; prefix-named type and subclass; names with trailing / double underscore
+Types == {"m1.T", "m2.T", "m1.TX", "m1.TSub", "m1.T_", "m1.T__V", "m1.M5", "m1.TE"}       \* same-named type in another module; prefix-named type and subclass; names with trailing / double underscore
 
 Seqs(S, n) == UNION {[1..k -> S] : k \in 0..n}
 Colls(S) ==                                   \* raw collections over the element set S
